@@ -34,6 +34,7 @@ VARIABLES
 
 vars == <<emitted, wire, rseq, rstate, delivered, touched, nadv, adv, lbl>>
 view == <<emitted, wire, rseq, rstate, delivered, touched, nadv>>
+viewA == <<emitted, wire, rseq, rstate, delivered, touched, nadv, adv>>
 
 Init == /\ emitted = 0 /\ wire = <<>> /\ rseq = 0 /\ rstate = "ok"
         /\ delivered = <<>> /\ touched = 0 /\ nadv = 0 /\ adv = <<>>
@@ -134,6 +135,10 @@ PrefixIntact == (rstate \in {"err", "stall"} /\ touched > 0) => Len(delivered) >
 \* the untouched stream is delivered completely
 UntouchedComplete == (nadv = 0 /\ emitted = NPkts /\ wire = <<>>) => Len(delivered) = NPkts
 EventuallyDecided == <>(wire = <<>> \/ rstate # "ok")
+
+\* emits every distinct adversary schedule with the model's verdict (always TRUE)
+EmitAdv == (nadv > 0 /\ (rstate # "ok" \/ (wire = <<>> /\ emitted = NPkts))) =>
+              PrintT(ToString(<<"SCRIPT", adv, <<rstate, Len(delivered)>> >>))
 
 NeverStall == rstate # "stall"
 NeverErr == rstate # "err"
